@@ -4,9 +4,9 @@ from ._generic import make, STD_TRUST
 globals().update(
     make(
         pid="C19",
-        props=["JaqalProofs/Props/C19.lean"],
-        targets=["JaqalProofs.Props.C19"],
-        diffs=[("harness.agents.time_diff", 1500, 20000), ("harness.agents.c19_edge", 3000, 10000), ("harness.agents.c19_scale", 600, 1500)],
+        props=["JaqalProofs/Props/C19.lean", "JaqalProofs/Props/C19Circuit.lean"],
+        targets=["JaqalProofs.Props.C19", "JaqalProofs.Props.C19Circuit"],
+        diffs=[("harness.agents.time_diff", 1500, 20000), ("harness.agents.c19_edge", 3000, 10000), ("harness.agents.c19_scale", 600, 1500), ("harness.agents.c19_circuit_diff", 3000, 1500)],
         trusted=[
             STD_TRUST,
             "hand-written model JaqalModel/Model/UnitTiming.lean of BlockNormalizer / UnrollIterator / zip_longest chunking; specification JaqalModel/Spec/Schedule.lean (gate = 1 step, sequential = sum, parallel = max with a common start, loop = n back-to-back copies of its body)",
